@@ -336,7 +336,7 @@ def unit_initial(kind):
                              (BG.mjx, "forward", _fwd_stub), (mod.mjx, "make_data", lambda m: base_data)):
             st = run(ctx, lambda kk: env.initial(key=kk), k)
         rm = [c for c in ctx.calls if c.name == "RM#"]
-        S.fact(f"{kind}.initial/randomises-the-nominal-model-once", len(rm) == 1 and recorded.get("model_is_base") and recorded.get("torso_body_id") == env.torso_body_id, function=fn,
+        S.fact(f"{kind}.initial/randomises-the-nominal-model-once", len(rm) == 1 and recorded.get("model_is_base") and recorded.get("torso_body_id") == env.torso_body_id, shape=False, function=fn,
                what="the episode's model is randomize_model applied once to the NOMINAL (base) model")
         if len(rm) == 1:
             c = rm[0]
@@ -475,7 +475,7 @@ def _transition(S, kinds, lemma=True):
             ns = run(ctx, build, gp, gf, cmd, bm, act, k)
         rp = native_phase_replay(kind)
         agp = [c for c in ctx.calls if c.name == "AGP#"]
-        S.fact(f"{kind}.transition/phase-advanced-once-per-control-step", len(agp) == 1 and calls["n"] == 1, function=fn, what="advance_gait_phase is applied exactly once per control step (not per physics sub-step)",
+        S.fact(f"{kind}.transition/phase-advanced-once-per-control-step", len(agp) == 1 and calls["n"] == 1, shape=False, function=fn, what="advance_gait_phase is applied exactly once per control step (not per physics sub-step)",
                detail=dict(calls=calls["n"]))
         if len(agp) == 1:
             c = agp[0]
